@@ -525,8 +525,15 @@ def r03_8(ctx, prog, crate):
     bench_mode_tables(ctx, "R03.8", prog, crate)
 
 
+def r03_9(ctx, prog, crate):
+    """Test mode is what the command line asked for: the CLI action table (C14's R14.7, reported here under this property)."""
+    from rules.C14 import cli_action_table
+    cli_action_table(ctx, "R03.9", prog, crate)
+
+
 def run(ctx, prog, crate):
     r03_8(ctx, prog, crate)
+    r03_9(ctx, prog, crate)
     S = Sampling(prog, crate)
     if not ctx.anchor("R03.1", "sampling loop", 1 if S.body is not None and S.loop is not None and S.cond_switch is not None else 0, 1):
         return
